@@ -13,6 +13,8 @@ mod c01;
 mod c16;
 mod sim;
 mod simdemo;
+mod simop;
+mod c19;
 mod wirefmt;
 mod util;
 mod worker;
@@ -33,6 +35,9 @@ pub fn exec_line(line: &str) -> Option<String> {
     }
     if op == "decode" {
         return c01::exec(op, &mut t);
+    }
+    if op == "sim" {
+        return simop::exec(op, &mut t);
     }
     None
 }
@@ -70,6 +75,7 @@ fn main() {
                 match prop.as_str() {
                     "C01" => c01::generate(&mut rng, &tier, &mut emit),
                     "C16" => c16::generate(&mut rng, &tier, &mut emit),
+                    "C19" => c19::generate(&mut rng, &tier, &mut emit),
                     _ => {
                         eprintln!("unknown property {}", prop);
                         std::process::exit(2);
